@@ -37,22 +37,19 @@ impl Axecutor {
     fn instr_shr_rm8_imm8(&mut self, i: Instruction) -> Result<(), AxError> {
         debug_assert_eq!(i.code(), Shr_rm8_imm8);
 
-        calculate_rm_imm![u8f; self; i; |d: u8, s:u8| {
-            assert_ne!(s, 1, "SHR r/m8, 1 should be handled by opcode SHR r/m8, 1");
-
-            if s == 0 {
+        calculate_rm_imm![u8f; self; i; |d: u8, s: u8| {
+            // The count is masked to 5 bits; a masked count of 0 changes neither the operand nor the flags
+            let count = (s & 0x1f) as u32;
+            if count == 0 {
                 return (d, FLAGS_UNAFFECTED);
             }
-
-            match d.checked_shr((s&0x1f) as u32) {
-                Some(v) => {
-                    let cf = if d & (1 << ((s-1)&0x1f)) != 0 { FLAG_CF } else {0};
-
-                    (v, cf)
-                }
-                None => (0, if s == 8 && d & 0x80 != 0 { FLAG_CF } else {0})
-            }
-        }; (set: FLAG_PF | FLAG_ZF | FLAG_SF; clear: FLAG_CF)]
+            let result = d.checked_shr(count).unwrap_or(0);
+            // CF is the last bit shifted out
+            let cf = if count <= 8 && d.checked_shr(count - 1).unwrap_or(0) & 1 != 0 { FLAG_CF } else { 0 };
+            // OF (only defined for 1-bit shifts) is the MSB of the original operand
+            let of = if d & 0x80 != 0 { FLAG_OF } else { 0 };
+            (result, cf | of)
+        }; (set: FLAG_PF | FLAG_ZF | FLAG_SF; clear: FLAG_CF | FLAG_OF)]
     }
 
     /// SHR r/m16, imm8
@@ -61,22 +58,19 @@ impl Axecutor {
     fn instr_shr_rm16_imm8(&mut self, i: Instruction) -> Result<(), AxError> {
         debug_assert_eq!(i.code(), Shr_rm16_imm8);
 
-        calculate_rm_imm![u16f; u8; self; i; |d: u16, s:u8| {
-            assert_ne!(s, 1, "SHR r/m16, 1 should be handled by opcode SHR r/m16, 1");
-
-            if s == 0 {
+        calculate_rm_imm![u16f; u8; self; i; |d: u16, s: u8| {
+            // The count is masked to 5 bits; a masked count of 0 changes neither the operand nor the flags
+            let count = (s & 0x1f) as u32;
+            if count == 0 {
                 return (d, FLAGS_UNAFFECTED);
             }
-
-            match d.checked_shr((s&0x1f) as u32) {
-                Some(v) => {
-                    let cf = if d & (1 << ((s-1)&0x1f)) != 0 { FLAG_CF } else {0};
-
-                    (v, cf)
-                }
-                None => (0, if s == 16 && d & 0x8000 != 0 { FLAG_CF } else {0})
-            }
-        }; (set: FLAG_PF | FLAG_ZF | FLAG_SF; clear: FLAG_CF)]
+            let result = d.checked_shr(count).unwrap_or(0);
+            // CF is the last bit shifted out
+            let cf = if count <= 16 && d.checked_shr(count - 1).unwrap_or(0) & 1 != 0 { FLAG_CF } else { 0 };
+            // OF (only defined for 1-bit shifts) is the MSB of the original operand
+            let of = if d & 0x8000 != 0 { FLAG_OF } else { 0 };
+            (result, cf | of)
+        }; (set: FLAG_PF | FLAG_ZF | FLAG_SF; clear: FLAG_CF | FLAG_OF)]
     }
 
     /// SHR r/m32, imm8
@@ -85,22 +79,19 @@ impl Axecutor {
     fn instr_shr_rm32_imm8(&mut self, i: Instruction) -> Result<(), AxError> {
         debug_assert_eq!(i.code(), Shr_rm32_imm8);
 
-        calculate_rm_imm![u32f; u8; self; i; |d: u32, s:u8| {
-            assert_ne!(s, 1, "SHR r/m32, 1 should be handled by opcode SHR r/m32, 1");
-
-            if s == 0 {
+        calculate_rm_imm![u32f; u8; self; i; |d: u32, s: u8| {
+            // The count is masked to 5 bits; a masked count of 0 changes neither the operand nor the flags
+            let count = (s & 0x1f) as u32;
+            if count == 0 {
                 return (d, FLAGS_UNAFFECTED);
             }
-
-            match d.checked_shr((s&0x1f) as u32) {
-                Some(v) => {
-                    let cf = if d & (1 << ((s-1)&0x1f)) != 0 { FLAG_CF } else {0};
-
-                    (v, cf)
-                }
-                None => (0, if s == 32 && d & 0x8000_0000 != 0 { FLAG_CF } else {0})
-            }
-        }; (set: FLAG_PF | FLAG_ZF | FLAG_SF; clear: FLAG_CF)]
+            let result = d.checked_shr(count).unwrap_or(0);
+            // CF is the last bit shifted out
+            let cf = if count <= 32 && d.checked_shr(count - 1).unwrap_or(0) & 1 != 0 { FLAG_CF } else { 0 };
+            // OF (only defined for 1-bit shifts) is the MSB of the original operand
+            let of = if d & 0x8000_0000 != 0 { FLAG_OF } else { 0 };
+            (result, cf | of)
+        }; (set: FLAG_PF | FLAG_ZF | FLAG_SF; clear: FLAG_CF | FLAG_OF)]
     }
 
     /// SHR r/m64, imm8
@@ -109,22 +100,19 @@ impl Axecutor {
     fn instr_shr_rm64_imm8(&mut self, i: Instruction) -> Result<(), AxError> {
         debug_assert_eq!(i.code(), Shr_rm64_imm8);
 
-        calculate_rm_imm![u64f; u8; self; i; |d: u64, s:u8| {
-            assert_ne!(s, 1, "SHR r/m64, 1 should be handled by opcode SHR r/m64, 1");
-
-            if s == 0 {
+        calculate_rm_imm![u64f; u8; self; i; |d: u64, s: u8| {
+            // The count is masked to 6 bits; a masked count of 0 changes neither the operand nor the flags
+            let count = (s & 0x3f) as u32;
+            if count == 0 {
                 return (d, FLAGS_UNAFFECTED);
             }
-
-            match d.checked_shr((s&0x1f) as u32) {
-                Some(v) => {
-                    let cf = if d & (1 << ((s-1)&0x1f)) != 0 { FLAG_CF } else {0};
-
-                    (v, cf)
-                }
-                None => (0, if s == 64 && d & 0x8000_0000_0000_0000 != 0 { FLAG_CF } else {0})
-            }
-        }; (set: FLAG_PF | FLAG_ZF | FLAG_SF; clear: FLAG_CF)]
+            let result = d.checked_shr(count).unwrap_or(0);
+            // CF is the last bit shifted out
+            let cf = if count <= 64 && d.checked_shr(count - 1).unwrap_or(0) & 1 != 0 { FLAG_CF } else { 0 };
+            // OF (only defined for 1-bit shifts) is the MSB of the original operand
+            let of = if d & 0x8000_0000_0000_0000 != 0 { FLAG_OF } else { 0 };
+            (result, cf | of)
+        }; (set: FLAG_PF | FLAG_ZF | FLAG_SF; clear: FLAG_CF | FLAG_OF)]
     }
 
     /// SHR r/m8, 1
@@ -202,19 +190,17 @@ impl Axecutor {
         debug_assert_eq!(i.code(), Shr_rm8_CL);
 
         calculate_rm_r![u8f; self; i; |d: u8, s: u8| {
-            if s == 0 {
+            // The count is masked to 5 bits; a masked count of 0 changes neither the operand nor the flags
+            let count = (s & 0x1f) as u32;
+            if count == 0 {
                 return (d, FLAGS_UNAFFECTED);
             }
-
-            match d.checked_shr((s&0x1f) as u32) {
-                Some(v) => {
-                    let cf = if d & (1 << ((s-1)&0x1f)) != 0 { FLAG_CF } else {0};
-                    let of = if s == 1 && d & 0x80 != 0 { FLAG_OF } else {0};
-
-                    (v, cf|of)
-                }
-                None => (0, if s == 8 && d & 0x80 != 0 { FLAG_CF } else {0})
-            }
+            let result = d.checked_shr(count).unwrap_or(0);
+            // CF is the last bit shifted out
+            let cf = if count <= 8 && d.checked_shr(count - 1).unwrap_or(0) & 1 != 0 { FLAG_CF } else { 0 };
+            // OF (only defined for 1-bit shifts) is the MSB of the original operand
+            let of = if d & 0x80 != 0 { FLAG_OF } else { 0 };
+            (result, cf | of)
         }; (set: FLAG_PF | FLAG_ZF | FLAG_SF; clear: FLAG_CF | FLAG_OF)]
     }
 
@@ -225,19 +211,17 @@ impl Axecutor {
         debug_assert_eq!(i.code(), Shr_rm16_CL);
 
         calculate_rm_r![u16f; u8; self; i; |d: u16, s: u8| {
-            if s == 0 {
+            // The count is masked to 5 bits; a masked count of 0 changes neither the operand nor the flags
+            let count = (s & 0x1f) as u32;
+            if count == 0 {
                 return (d, FLAGS_UNAFFECTED);
             }
-
-            match d.checked_shr((s&0x1f) as u32) {
-                Some(v) => {
-                    let cf = if d & (1 << ((s-1)&0x1f)) != 0 { FLAG_CF } else {0};
-                    let of = if s == 1 && d & 0x8000 != 0 { FLAG_OF } else {0};
-
-                    (v, cf|of)
-                }
-                None => (0, if s == 16 && d & 0x8000 != 0 { FLAG_CF } else {0})
-            }
+            let result = d.checked_shr(count).unwrap_or(0);
+            // CF is the last bit shifted out
+            let cf = if count <= 16 && d.checked_shr(count - 1).unwrap_or(0) & 1 != 0 { FLAG_CF } else { 0 };
+            // OF (only defined for 1-bit shifts) is the MSB of the original operand
+            let of = if d & 0x8000 != 0 { FLAG_OF } else { 0 };
+            (result, cf | of)
         }; (set: FLAG_PF | FLAG_ZF | FLAG_SF; clear: FLAG_CF | FLAG_OF)]
     }
 
@@ -248,19 +232,17 @@ impl Axecutor {
         debug_assert_eq!(i.code(), Shr_rm32_CL);
 
         calculate_rm_r![u32f; u8; self; i; |d: u32, s: u8| {
-            if s == 0 {
+            // The count is masked to 5 bits; a masked count of 0 changes neither the operand nor the flags
+            let count = (s & 0x1f) as u32;
+            if count == 0 {
                 return (d, FLAGS_UNAFFECTED);
             }
-
-            match d.checked_shr((s&0x1f) as u32) {
-                Some(v) => {
-                    let cf = if d & (1 << ((s-1)&0x1f)) != 0 { FLAG_CF } else {0};
-                    let of = if s == 1 && d & 0x8000_0000 != 0 { FLAG_OF } else {0};
-
-                    (v, cf|of)
-                }
-                None => (0, if s == 32 && d & 0x8000_0000 != 0 { FLAG_CF } else {0})
-            }
+            let result = d.checked_shr(count).unwrap_or(0);
+            // CF is the last bit shifted out
+            let cf = if count <= 32 && d.checked_shr(count - 1).unwrap_or(0) & 1 != 0 { FLAG_CF } else { 0 };
+            // OF (only defined for 1-bit shifts) is the MSB of the original operand
+            let of = if d & 0x8000_0000 != 0 { FLAG_OF } else { 0 };
+            (result, cf | of)
         }; (set: FLAG_PF | FLAG_ZF | FLAG_SF; clear: FLAG_CF | FLAG_OF)]
     }
 
@@ -271,19 +253,17 @@ impl Axecutor {
         debug_assert_eq!(i.code(), Shr_rm64_CL);
 
         calculate_rm_r![u64f; u8; self; i; |d: u64, s: u8| {
-            if s == 0 {
+            // The count is masked to 6 bits; a masked count of 0 changes neither the operand nor the flags
+            let count = (s & 0x3f) as u32;
+            if count == 0 {
                 return (d, FLAGS_UNAFFECTED);
             }
-
-            match d.checked_shr((s&0x1f) as u32) {
-                Some(v) => {
-                    let cf = if d & (1 << ((s-1)&0x1f)) != 0 { FLAG_CF } else {0};
-                    let of = if s == 1 && d & 0x8000_0000_0000_0000 != 0 { FLAG_OF } else {0};
-
-                    (v, cf|of)
-                }
-                None => (0, if s == 64 && d & 0x8000_0000_0000_0000 != 0 { FLAG_CF } else {0})
-            }
+            let result = d.checked_shr(count).unwrap_or(0);
+            // CF is the last bit shifted out
+            let cf = if count <= 64 && d.checked_shr(count - 1).unwrap_or(0) & 1 != 0 { FLAG_CF } else { 0 };
+            // OF (only defined for 1-bit shifts) is the MSB of the original operand
+            let of = if d & 0x8000_0000_0000_0000 != 0 { FLAG_OF } else { 0 };
+            (result, cf | of)
         }; (set: FLAG_PF | FLAG_ZF | FLAG_SF; clear: FLAG_CF | FLAG_OF)]
     }
 }
